@@ -127,17 +127,30 @@ pub fn run(data: &[u8], ctx: &mut Ctx) -> Outcome {
     }
     let mut signed = e.clone();
     let mut with_md: Vec<Option<Vec<M>>> = Vec::new();
+    // the array form add_signatures_opt is the same as signing one by one; it is used when the signer
+    // indices sum to a multiple of 3 (no further choice is drawn)
+    let bulk = signers.len() >= 2 && signers.iter().sum::<usize>() % 3 == 0;
+    let mut bulk_args: Vec<(usize, Option<SignatureMetadata>)> = Vec::new();
     for &i in &signers {
         let k = &pool.sig[i];
         ctx.class(&format!("scheme:{}", k.scheme));
         ctx.fingerprint(&[i as u8]);
         let md = if src.chance(90) { Some(metadata_for(i, &mut src)) } else { None };
         let key = format!("C09/sign/{}", k.scheme);
-        signed = nopanic!(ctx, signed.add_signature_opt(&k.private, k.options(), md.as_ref().map(|x| x.0.clone())), "sign", &key);
+        if bulk {
+            bulk_args.push((i, md.as_ref().map(|x| x.0.clone())));
+        } else {
+            signed = nopanic!(ctx, signed.add_signature_opt(&k.private, k.options(), md.as_ref().map(|x| x.0.clone())), "sign", &key);
+        }
         if md.is_some() {
             ctx.class("with-metadata");
         }
         with_md.push(md.map(|x| x.1));
+    }
+    if bulk {
+        ctx.class("signed-through-add_signatures_opt");
+        let args: Vec<(&dyn Signer, Option<bc_components::SigningOptions>, Option<SignatureMetadata>)> = bulk_args.iter().map(|(i, md)| (&pool.sig[*i].private as &dyn Signer, pool.sig[*i].options(), md.clone())).collect();
+        signed = nopanic!(ctx, signed.add_signatures_opt(&args), "sign", "C09/sign/add_signatures_opt");
     }
     if nopanic!(ctx, unreadable_fresh_signature(&signed), "sign", "C09/sign") {
         ctx.excluded_known += 1;
